@@ -32,6 +32,7 @@ type Sig struct {
 	Params    []Param  // in Lean order (receiver first, then parameters, then extern parameters)
 	Results   []string // protocol kinds of the results (the updated receiver last when RecvOut)
 	RecvOut   bool
+	RecvDropped bool // the receiver has an untranslatable type and is never mentioned in the body: the method is a function of its parameters
 	TParams   []string // every Go type parameter (receiver's first)
 	Erased    []string // type parameters whose type set is one Lean type: no Lean type variable
 	GoParams  []Param // the Go parameters (without receiver/extern), for the shim
@@ -100,7 +101,10 @@ type fn struct {
 	notes     []string
 	errCls    map[string]bool
 	structLocal map[types.Object]bool
+	ownedChecked bool
 	condDepth   int // > 0 while a conditionally evaluated operand (right side of && / ||, a later case expression) is translated
+	ptrSlice    map[types.Object]*ty          // `p *[]T` parameters read once (`x := *p`) and stored once (`*p = x`): in-out lists
+	ptrAlias    map[types.Object]types.Object // the local x of such a parameter -> the parameter
 }
 
 func (t *fn) reject(n ast.Node, format string, a ...any) {
@@ -245,6 +249,9 @@ func (t *fn) ex(e ast.Expr) string {
 	case *ast.CompositeLit:
 		return t.composite(x)
 	case *ast.StarExpr:
+		if n, ok := t.ptrSliceName(x.X); ok {
+			return n
+		}
 		t.reject(e, "pointer dereference `%s` is outside the subset", t.text(e))
 	case *ast.FuncLit:
 		t.reject(e, "function literal (closure) is outside the subset")
@@ -408,6 +415,12 @@ func (t *fn) binary(x *ast.BinaryExpr) string {
 			if t.isNil(other) {
 				t.reject(x, "`nil == nil` is outside the subset")
 			}
+			if ot := t.tyOf(other); ot.k == kOptFn {
+				if x.Op == token.NEQ {
+					return "(Option.isSome " + t.ex(other) + ")"
+				}
+				return "(Option.isNone " + t.ex(other) + ")"
+			}
 			if ot := t.tyOf(other); ot.k != kErr {
 				t.reject(x, "comparison `%s`: `nil` is in the subset only for `error` (slices are lists without a nil/empty distinction)", t.text(x))
 			}
@@ -553,6 +566,9 @@ func (t *fn) convert(x *ast.CallExpr, dstT types.Type) string {
 	if err != nil {
 		t.reject(x, "conversion `%s`: %v", t.text(x), err)
 	}
+	if t.isNil(x.Args[0]) && dst.k == kList && !dst.str {
+		return t.nilSlice(x, dst)
+	}
 	src := t.tyOf(x.Args[0])
 	a := t.ex(x.Args[0])
 	t.noteInt(x)
@@ -636,6 +652,11 @@ func (t *fn) call(x *ast.CallExpr, want int) []string {
 			if ft := t.funcPar[v]; ft != nil {
 				return t.callbackCall(x, v, ft, want)
 			}
+			if _, known := t.names[v]; known && !v.IsField() {
+				if vt, err := t.goType(v.Type()); err == nil && vt.k == kOptFn {
+					return t.optFnCall(x, v, vt)
+				}
+			}
 		}
 	}
 	if callee == nil {
@@ -660,6 +681,9 @@ func (t *fn) call(x *ast.CallExpr, want int) []string {
 		t.reject(x, "call of `%s`: no Go semantics for this function in GoSem (add an extern option or a GoSem definition)", full)
 	}
 	sig := callee.Type().(*types.Signature)
+	if sig.Variadic() {
+		t.reject(x, "call of the variadic function %s is outside the subset", callee.Name())
+	}
 	if sig.Recv() != nil {
 		return t.recvMethodCall(x, callee)
 	}
@@ -857,6 +881,9 @@ func (t *fn) builtin(x *ast.CallExpr, name string) string {
 		if len(x.Args) == 1 {
 			return s
 		}
+		if x.Ellipsis.IsValid() {
+			return t.appendSpread(x, s)
+		}
 		var items []string
 		for _, a := range x.Args[1:] {
 			items = append(items, t.ex(a))
@@ -989,6 +1016,12 @@ func (t *fn) selector(x *ast.SelectorExpr) string {
 			bt := t.tyOf(inner)
 			if bt.k == kStruct {
 				return t.selector(inner) + "." + leanIdent(x.Sel.Name)
+			}
+		}
+		if ix, ok2 := base.(*ast.IndexExpr); ok2 {
+			if _, isPtr := t.typeOf(ix).Underlying().(*types.Pointer); !isPtr && t.tyOf(ix).k == kStruct {
+				t.noteInt(x)
+				return t.index(ix) + "." + leanIdent(x.Sel.Name)
 			}
 		}
 		t.reject(x, "field access `%s`: base outside the subset", t.text(x))
@@ -1282,6 +1315,9 @@ func (t *fn) varTy(o types.Object) *ty {
 	if ft := t.funcPar[o]; ft != nil {
 		return ft
 	}
+	if st := t.ptrSlice[o]; st != nil {
+		return st
+	}
 	r, err := t.goType(o.Type())
 	if err != nil {
 		panic(reject{fmt.Sprintf("variable %s: %v", o.Name(), err)})
@@ -1484,6 +1520,9 @@ func (t *fn) assignTo(lhs ast.Expr, val string) []string {
 		if sel == nil || sel.Kind() != types.FieldVal || len(sel.Index()) != 1 {
 			t.reject(lhs, "assignment to `%s` is outside the subset", t.text(lhs))
 		}
+		if ix, isIx := ast.Unparen(l.X).(*ast.IndexExpr); isIx {
+			return t.assignElemField(l, ix, val)
+		}
 		id, ok := ast.Unparen(l.X).(*ast.Ident)
 		if !ok {
 			t.reject(lhs, "assignment to the nested field `%s` is outside the subset", t.text(lhs))
@@ -1504,6 +1543,12 @@ func (t *fn) assignTo(lhs ast.Expr, val string) []string {
 		n := t.nameOf(o)
 		return []string{fmt.Sprintf("let %s : %s := { %s with %s := %s }", n, bt.lean(), n, leanIdent(l.Sel.Name), val)}
 	}
+	if st, isStar := ast.Unparen(lhs).(*ast.StarExpr); isStar {
+		if n, ok := t.ptrSliceName(st.X); ok {
+			o := t.pkg.info.ObjectOf(ast.Unparen(st.X).(*ast.Ident))
+			return []string{fmt.Sprintf("let %s : %s := %s", n, t.ptrSlice[o].lean(), val)}
+		}
+	}
 	t.reject(lhs, "assignment to `%s` is outside the subset", t.text(lhs))
 	return nil
 }
@@ -1522,6 +1567,9 @@ func (t *fn) checkWritable(base ast.Expr) {
 	case *ast.Ident:
 		o := t.pkg.info.ObjectOf(b)
 		if t.inoutSet[o] {
+			return
+		}
+		if _, ok := t.ptrAlias[o]; ok {
 			return
 		}
 		if !t.freshLocal(o) {
@@ -1736,6 +1784,20 @@ func (t *fn) assign(x *ast.AssignStmt) []string {
 			token.REM_ASSIGN: token.REM, token.AND_ASSIGN: token.AND, token.OR_ASSIGN: token.OR, token.XOR_ASSIGN: token.XOR,
 			token.SHL_ASSIGN: token.SHL, token.SHR_ASSIGN: token.SHR, token.AND_NOT_ASSIGN: token.AND_NOT,
 		}[x.Tok]
+		if ce, ok := ast.Unparen(x.Rhs[0]).(*ast.CallExpr); ok && t.isBuiltinCall(ce, "copy") {
+			// `v += copy(dst, src)` (also -=) for a plain integer VARIABLE v: exactly `n := copy(dst, src); v = v + n`
+			// — copy writes only elements of dst, never v, and the operands of copy read v before the store.
+			id, isId := ast.Unparen(x.Lhs[0]).(*ast.Ident)
+			if !isId || t.tyOf(x.Lhs[0]).k != kInt || (x.Tok != token.ADD_ASSIGN && x.Tok != token.SUB_ASSIGN) {
+				t.reject(x, "`%s`: an op-assignment from copy(...) is translated only as `v += copy(…)`/`v -= copy(…)` for an int variable v", t.text(x))
+			}
+			v := t.copyCall(ce)
+			op := " + "
+			if x.Tok == token.SUB_ASSIGN {
+				op = " - "
+			}
+			return t.assignTo(x.Lhs[0], "("+t.ex(id)+op+v+")")
+		}
 		be := &ast.BinaryExpr{X: x.Lhs[0], Op: opTok, Y: x.Rhs[0], OpPos: x.TokPos}
 		// type information for the synthetic node: the type of the left operand
 		t.pkg.info.Types[be] = types.TypeAndValue{Type: t.typeOf(x.Lhs[0])}
@@ -2187,7 +2249,7 @@ func (t *fn) rangeStmt(x *ast.RangeStmt, c *ctx, k func() []string) []string {
 			if id, ok := ast.Unparen(x.X).(*ast.Ident); ok {
 				o := t.pkg.info.ObjectOf(id)
 				for _, a := range t.assignedOuter(x.Body) {
-					if a == o && !t.onlyCurrentIndexWrites(x, o) {
+					if a == o && !t.rangeNoValue(x) && !t.onlyCurrentIndexWrites(x, o) {
 						t.reject(x, "the ranged slice `%s` is assigned in the loop body (other than `%s[<range index>] = …`): outside the subset", id.Name, id.Name)
 					}
 				}
@@ -2730,6 +2792,10 @@ func (t *fn) findInOut(sig *types.Signature) {
 			for _, r := range rs.Results {
 				rt, err := t.goType(t.typeOf(r))
 				if t.mentions(r, p) && (err != nil || (rt.k == kList && !rt.str) || rt.k == kStruct) {
+					if t.tgt != nil && t.tgt.ResultViews && err == nil && rt.k == kList && !rt.str && t.plainViewOf(r, p) && t.returnHasNoCall(rs) {
+						t.noteAliasedResult(rs, p)
+						continue
+					}
 					t.reject(rs, "`%s` returns a value that may alias the written slice parameter `%s`: outside the subset", t.text(rs), p.Name())
 				}
 			}
@@ -2888,9 +2954,15 @@ func (t *fn) isNil(e ast.Expr) bool {
 
 // exAs: e where a value of type want is expected (`nil` has no type of its own).
 func (t *fn) exAs(e ast.Expr, want *ty) string {
+	if t.isNil(e) && want != nil && want.k == kList && !want.str {
+		return t.nilSlice(e, want)
+	}
 	if t.isNil(e) {
 		if want != nil && want.k == kErr {
 			return "GoSem.Err.nil"
+		}
+		if want != nil && want.k == kOptFn {
+			return "(none : " + want.lean() + ")"
 		}
 		t.reject(e, "`nil` is in the subset only as an `error` value (slices are lists without a nil/empty distinction)")
 	}
@@ -3168,4 +3240,438 @@ func (t *fn) noCond(x *ast.CallExpr, callee string) {
 	if t.condDepth > 0 {
 		t.reject(x, "the call of %s writes a variable of the caller (state passing) inside a conditionally evaluated operand (right side of &&/||, later case expression): outside the subset", callee)
 	}
+}
+
+// ---- wave 9 (C06): pointer-to-slice parameters, element-field writes, append with a spread argument ----
+
+// ptrSliceName: e is the identifier of a `*[]T` parameter accepted by ptrSliceShape.
+func (t *fn) ptrSliceName(e ast.Expr) (string, bool) {
+	id, ok := ast.Unparen(e).(*ast.Ident)
+	if !ok {
+		return "", false
+	}
+	o := t.pkg.info.ObjectOf(id)
+	if _, ok := t.ptrSlice[o]; !ok {
+		return "", false
+	}
+	return t.nameOf(o), true
+}
+
+// ptrSliceShape accepts a parameter `p *[]T` (T translatable) that the function uses in exactly this way:
+//   - one top-level statement `x := *p` (the only read through p),
+//   - the LAST top-level statement of the body is `*p = x` (the only write through p),
+//   - no other mention of p, no `return` anywhere (the store at the end is always reached unless the function panics),
+//   - every other assignment to x is `x = append(x, …)` / `x = append(x[a:b], …)` and x gets no second name.
+// Then `*p` is dead between the two statements and x is the only live name of the caller's slice: the parameter is an
+// in-out LIST (its value before the call; its value after the call is returned), element writes through x are exact,
+// and `append(x[:k], …)` — which overwrites x's own array past k — yields exactly the list `x[:k] ++ …` (Go's append
+// copies with memmove semantics, so an overlapping `x[j:]...` argument is read as it was before the call).
+// Returns the local x, or a reason.
+func (t *fn) ptrSliceShape(p *types.Var) (types.Object, string) {
+	body := t.decl.Body.List
+	derefOf := func(e ast.Expr) bool {
+		st, ok := ast.Unparen(e).(*ast.StarExpr)
+		if !ok {
+			return false
+		}
+		id, ok := ast.Unparen(st.X).(*ast.Ident)
+		return ok && t.pkg.info.ObjectOf(id) == types.Object(p)
+	}
+	var x types.Object
+	var first ast.Stmt
+	for _, s := range body {
+		as, ok := s.(*ast.AssignStmt)
+		if ok && as.Tok == token.DEFINE && len(as.Lhs) == 1 && len(as.Rhs) == 1 && derefOf(as.Rhs[0]) {
+			if id, ok := as.Lhs[0].(*ast.Ident); ok && id.Name != "_" {
+				x, first = t.pkg.info.Defs[id], s
+			}
+			break
+		}
+	}
+	if x == nil || len(body) < 2 {
+		return nil, "no top-level `x := *" + p.Name() + "`"
+	}
+	last, ok := body[len(body)-1].(*ast.AssignStmt)
+	if !ok || last.Tok != token.ASSIGN || len(last.Lhs) != 1 || len(last.Rhs) != 1 || !derefOf(last.Lhs[0]) {
+		return nil, "the last statement is not `*" + p.Name() + " = x`"
+	}
+	if id, ok := ast.Unparen(last.Rhs[0]).(*ast.Ident); !ok || t.pkg.info.ObjectOf(id) != x {
+		return nil, "the last statement does not store the local read from `*" + p.Name() + "`"
+	}
+	mentions, why := 0, ""
+	ast.Inspect(t.decl.Body, func(m ast.Node) bool {
+		switch s := m.(type) {
+		case *ast.Ident:
+			if t.pkg.info.ObjectOf(s) == types.Object(p) {
+				mentions++
+			}
+		case *ast.ReturnStmt:
+			why = "a return statement may skip the final store"
+		case *ast.FuncLit:
+			why = "function literal"
+		case *ast.AssignStmt:
+			if ast.Stmt(s) == first || s == last {
+				return true
+			}
+			for i, l := range s.Lhs {
+				id, ok := ast.Unparen(l).(*ast.Ident)
+				if !ok || t.pkg.info.ObjectOf(id) != x {
+					continue
+				}
+				good := false
+				if len(s.Lhs) == len(s.Rhs) && s.Tok == token.ASSIGN {
+					if ce, ok := ast.Unparen(s.Rhs[i]).(*ast.CallExpr); ok && t.isBuiltinCall(ce, "append") && len(ce.Args) > 0 {
+						a0 := ast.Unparen(ce.Args[0])
+						if se, ok := a0.(*ast.SliceExpr); ok && !se.Slice3 {
+							a0 = ast.Unparen(se.X)
+						}
+						if id0, ok := a0.(*ast.Ident); ok && t.pkg.info.ObjectOf(id0) == x {
+							good = true
+						}
+					}
+				}
+				if !good {
+					why = "`" + t.text(s) + "` gives the local another backing array"
+				}
+			}
+		}
+		return true
+	})
+	if why != "" {
+		return nil, why
+	}
+	if mentions != 2 {
+		return nil, fmt.Sprintf("`%s` is mentioned %d times (only `x := *%s` and a final `*%s = x` are accepted)", p.Name(), mentions, p.Name(), p.Name())
+	}
+	if r := t.aliasReason(x); r != "" && r != t.text(last) {
+		return nil, "`" + r + "` makes another name refer to the backing array"
+	}
+	return x, ""
+}
+
+// assignElemField: `a[i].f = v` on a slice of translated structs: read the element, update the field, store it back
+// (the write rule of `a[i] = …` applies to a).
+func (t *fn) assignElemFieldPlain(l *ast.SelectorExpr, ix *ast.IndexExpr, val string) []string {
+	if _, isPtr := t.typeOf(ix).Underlying().(*types.Pointer); isPtr {
+		t.reject(l, "assignment through the pointer element `%s` is outside the subset", t.text(ix))
+	}
+	et := t.tyOf(ix)
+	st := t.tyOf(ix.X)
+	if et.k != kStruct || st.k != kList || st.str {
+		t.reject(l, "assignment to `%s`: the base is not an element of a slice of translated structs", t.text(l))
+	}
+	var lines []string
+	old := t.pre
+	var pre []string
+	t.pre = &pre
+	cur := t.index(ix)
+	t.pre = old
+	lines = append(lines, pre...)
+	n := t.fresh("w")
+	lines = append(lines, fmt.Sprintf("let %s : %s := { %s with %s := %s }", n, et.lean(), cur, leanIdent(l.Sel.Name), val))
+	return append(lines, t.assignTo(ix, n)...)
+}
+
+// appendSpread: `append(s, xs...)` is `s ++ xs` (value of the result; who else sees the overwritten tail of s's array is
+// the business of the aliasing rules: the result must be assigned to a name and s must not stay reachable otherwise).
+func (t *fn) appendSpread(x *ast.CallExpr, s string) string {
+	if len(x.Args) != 2 {
+		t.reject(x, "malformed append with a spread argument")
+	}
+	at := t.tyOf(x.Args[1])
+	if at.k != kList {
+		t.reject(x, "append: spread argument `%s` has a type outside the subset", t.text(x.Args[1]))
+	}
+	return "(" + s + " ++ " + t.arg(x.Args[1]) + ")"
+}
+
+// optFnCall: a call through a local function variable that may be nil (kOptFn): the arguments are
+// evaluated first, then a nil function panics; a non-nil one is a pure total Lean function.
+func (t *fn) optFnCall(x *ast.CallExpr, v *types.Var, ft *ty) []string {
+	if len(x.Args) != len(ft.fnArgs) {
+		t.reject(x, "call of the function value `%s` with a multi-value argument is outside the subset", v.Name())
+	}
+	args := []string{"g"}
+	for _, a := range x.Args {
+		args = append(args, t.arg(a))
+	}
+	note := fmt.Sprintf("function value `%s : %s`: nil is `none` (calling it panics); a non-nil function is ASSUMED pure and total and not to keep or write the slices it is handed", v.Name(), ft.lean())
+	seen := false
+	for _, n := range t.notes {
+		seen = seen || n == note
+	}
+	if !seen {
+		t.notes = append(t.notes, note)
+	}
+	r := t.fresh("fv")
+	t.emit(fmt.Sprintf("let %s ← (match %s with | some g => Res.ok (%s) | none => Res.panic)", r, t.names[v], strings.Join(args, " ")))
+	return []string{r}
+}
+
+// assignElemField: `a[i].f = v` where a is a local slice of struct VALUES created by make in this
+// function: read the element, replace the field, store the element back (index checked once more:
+// same index, same panic). A slice-typed field makes the element own a backing array: the whole
+// function must then follow the ownership discipline checked by checkOwnedAppends.
+func (t *fn) assignElemFieldOwned(l *ast.SelectorExpr, ie *ast.IndexExpr, val string) []string {
+	et := t.tyOf(ie)
+	if _, isPtr := t.typeOf(ie).Underlying().(*types.Pointer); isPtr || et.k != kStruct {
+		t.reject(l, "assignment to `%s`: the element is not a translated struct value", t.text(l))
+	}
+	id, ok := ast.Unparen(ie.X).(*ast.Ident)
+	if !ok {
+		t.reject(l, "assignment to `%s`: the indexed slice must be a plain local variable", t.text(l))
+	}
+	t.checkOwnedAppends(id)
+	cur := t.ex(ie.X)
+	i, isInt := t.indexTerm(ie.Index)
+	rd, wr := "GoSem.idxN", "GoSem.setIdxN"
+	if isInt {
+		rd, wr = "GoSem.idx", "GoSem.setIdx"
+	}
+	e := t.fresh("e")
+	w := t.fresh("w")
+	lines := []string{
+		fmt.Sprintf("let %s ← %s %s %s", e, rd, parenIf(cur), parenIf(i)),
+		fmt.Sprintf("let %s ← %s %s %s { %s with %s := %s }", w, wr, parenIf(cur), parenIf(i), e, leanIdent(l.Sel.Name), val),
+	}
+	return append(lines, t.assignTo(ie.X, w)...)
+}
+
+// placeRoot: the variable a place expression (x, x[i], x.f, x[a:b] and their compositions) starts from.
+func (t *fn) placeRoot(e ast.Expr) types.Object {
+	for {
+		switch x := ast.Unparen(e).(type) {
+		case *ast.Ident:
+			return t.pkg.info.ObjectOf(x)
+		case *ast.IndexExpr:
+			e = x.X
+		case *ast.SelectorExpr:
+			e = x.X
+		case *ast.SliceExpr:
+			e = x.X
+		default:
+			return nil
+		}
+	}
+}
+
+// checkOwnedAppends (run once per function that writes `a[i].f`): the ownership discipline under
+// which `P = append(P[:k], ys...)` / `P = append(P, v)` has the value semantics "P becomes
+// P[:k] ++ ys" although it writes P's array in place:
+//   (1) a is a local that is assigned only by `make` (its elements start as zero values: nil slices);
+//   (2) every append in the function is the whole right-hand side of `P = append(P or P[:k], …)` for the
+//       same place P, P rooted at a local that is assigned only by make / `var` without value / such appends
+//       (so P's array is P's own or a fresh one: no two places ever share an array);
+//   (3) what is appended is not rooted at P's root variable (it cannot overlap P's array);
+//   (4) no slice or struct value rooted at one of these locals is copied into another name (assignment,
+//       var, composite literal, argument of a declared function); it may be read, handed to a callback
+//       (ASSUMED not to keep or write it) and returned.
+func (t *fn) checkOwnedAppends(a *ast.Ident) {
+	if t.ownedChecked {
+		return
+	}
+	t.ownedChecked = true
+	info := t.pkg.info
+	isAppend := func(e ast.Expr) *ast.CallExpr {
+		ce, ok := ast.Unparen(e).(*ast.CallExpr)
+		if ok && t.isBuiltinCall(ce, "append") {
+			return ce
+		}
+		return nil
+	}
+	isMake := func(e ast.Expr) bool {
+		ce, ok := ast.Unparen(e).(*ast.CallExpr)
+		return ok && t.isBuiltinCall(ce, "make")
+	}
+	samePlace := func(p, q ast.Expr) bool {
+		if se, ok := ast.Unparen(q).(*ast.SliceExpr); ok && !se.Slice3 {
+			q = se.X
+		}
+		return t.text(ast.Unparen(p)) == t.text(ast.Unparen(q))
+	}
+	owners := map[types.Object]bool{info.ObjectOf(a): true}
+	okAppend := map[*ast.CallExpr]bool{}
+	ast.Inspect(t.decl.Body, func(m ast.Node) bool {
+		as, ok := m.(*ast.AssignStmt)
+		if !ok || len(as.Lhs) != len(as.Rhs) {
+			return true
+		}
+		for i, r := range as.Rhs {
+			ce := isAppend(r)
+			if ce == nil {
+				continue
+			}
+			if as.Tok != token.ASSIGN || len(ce.Args) == 0 || !samePlace(as.Lhs[i], ce.Args[0]) {
+				t.reject(as, "`%s`: in a function that writes `%s[i].f` every append must have the form `P = append(P[:k], …)` for one place P (array ownership)", t.text(as), a.Name)
+			}
+			root := t.placeRoot(as.Lhs[i])
+			if root == nil {
+				t.reject(as, "`%s`: the appended place has no root variable", t.text(as))
+			}
+			if pt, ok := t.typeOf(as.Lhs[i]).Underlying().(*types.Slice); ok {
+				_, isTP := pt.Elem().(*types.TypeParam)
+				_, isBasic := pt.Elem().Underlying().(*types.Basic)
+				if !isTP && !isBasic {
+					t.reject(as, "`%s`: the elements appended may themselves refer to arrays (element type %s): outside the subset", t.text(as), pt.Elem())
+				}
+			}
+			for _, arg := range ce.Args[1:] {
+				at := t.typeOf(arg)
+				_, isSl := at.Underlying().(*types.Slice)
+				if isSl && t.placeRoot(arg) == root {
+					t.reject(as, "`%s`: the appended slice is rooted at `%s` as well (it may overlap the array written in place)", t.text(as), root.Name())
+				}
+				if isSl && t.placeRoot(arg) == nil {
+					t.reject(as, "`%s`: the appended slice is not a place expression", t.text(as))
+				}
+			}
+			owners[root] = true
+			okAppend[ce] = true
+		}
+		return true
+	})
+	sig := info.Defs[t.decl.Name].Type().(*types.Signature)
+	for o := range owners {
+		v, isVar := o.(*types.Var)
+		if !isVar || v.IsField() || o == t.recvObj || v.Parent() == v.Pkg().Scope() {
+			t.reject(a, "`%s`: owner of an array written in place must be a local variable", o.Name())
+		}
+		for i := 0; i < sig.Params().Len(); i++ {
+			if sig.Params().At(i) == o {
+				t.reject(a, "`%s`: a parameter may alias the caller's slices (array ownership)", o.Name())
+			}
+		}
+	}
+	carries := func(e ast.Expr) bool {
+		// can a value of this type carry a reference to an array?
+		switch t.typeOf(e).Underlying().(type) {
+		case *types.Basic:
+			return false
+		case *types.TypeParam:
+			return false
+		}
+		if tp, ok := t.typeOf(e).(*types.TypeParam); ok && tp != nil {
+			return false
+		}
+		return true
+	}
+	leak := func(n ast.Node, e ast.Expr) {
+		if isAppend(e) != nil || isMake(e) {
+			return
+		}
+		if r := t.placeRoot(e); r != nil && owners[r] && carries(e) {
+			t.reject(n, "`%s` copies `%s`, which refers to an array that is written in place, into another name (array ownership)", t.text(n), t.text(e))
+		}
+	}
+	ast.Inspect(t.decl.Body, func(m ast.Node) bool {
+		switch s := m.(type) {
+		case *ast.AssignStmt:
+			for i, l := range s.Lhs {
+				r := t.placeRoot(l)
+				if r == nil || !owners[r] {
+					continue
+				}
+				// a write to an owner: the variable itself (make / append only) or a field of an element
+				if len(s.Lhs) != len(s.Rhs) {
+					t.reject(s, "`%s`: multi-value assignment to an array owner", t.text(s))
+				}
+				rhs := s.Rhs[i]
+				if isMake(rhs) && ast.Unparen(l) != nil {
+					if _, isId := ast.Unparen(l).(*ast.Ident); isId {
+						continue
+					}
+				}
+				if ce := isAppend(rhs); ce != nil && okAppend[ce] {
+					continue
+				}
+				if !carries(rhs) && !carries(l) {
+					continue
+				}
+				t.reject(s, "`%s`: an array owner is assigned something other than make / its own append (array ownership)", t.text(s))
+			}
+			for _, r := range s.Rhs {
+				leak(s, r)
+			}
+		case *ast.ValueSpec:
+			for _, r := range s.Values {
+				leak(s, r)
+			}
+			for _, n := range s.Names {
+				if owners[info.Defs[n]] && len(s.Values) != 0 {
+					for _, r := range s.Values {
+						if !isMake(r) {
+							t.reject(s, "`var %s = %s`: an array owner must start as nil or from make", n.Name, t.text(r))
+						}
+					}
+				}
+			}
+		case *ast.CompositeLit:
+			for _, el := range s.Elts {
+				if kv, ok := el.(*ast.KeyValueExpr); ok {
+					el = kv.Value
+				}
+				leak(s, el)
+			}
+		case *ast.CallExpr:
+			if ce := isAppend(s); ce != nil && !okAppend[ce] {
+				t.reject(s, "`%s`: append outside the form `P = append(P[:k], …)` (array ownership)", t.text(s))
+			}
+			if id, ok := ast.Unparen(s.Fun).(*ast.Ident); ok {
+				switch o := info.ObjectOf(id).(type) {
+				case *types.Builtin:
+					return true
+				case *types.Var:
+					if vt, err := t.goType(o.Type()); t.funcPar[o] != nil || err == nil && vt.k == kOptFn {
+						return true // callback: ASSUMED not to keep or write its arguments (header note)
+					}
+				}
+			}
+			if tv, ok := info.Types[s.Fun]; ok && tv.IsType() {
+				return true
+			}
+			for _, arg := range s.Args {
+				leak(s, arg)
+			}
+		case *ast.RangeStmt:
+			if s.Value != nil {
+				if r := t.placeRoot(s.X); r != nil && owners[r] {
+					if id, ok := s.Value.(*ast.Ident); !ok || id.Name != "_" {
+						if vo := info.ObjectOf(s.Value.(*ast.Ident)); vo != nil && carries(s.Value) {
+							t.reject(s, "range over `%s` copies its elements, which own arrays written in place (array ownership)", t.text(s.X))
+						}
+					}
+				}
+			}
+		case *ast.UnaryExpr:
+			if s.Op == token.AND {
+				if r := t.placeRoot(s.X); r != nil && owners[r] {
+					t.reject(s, "`%s`: address of an array owner", t.text(s))
+				}
+			}
+		case *ast.FuncLit:
+			t.reject(s, "function literal in a function with arrays written in place")
+		}
+		return true
+	})
+	var names []string
+	for o := range owners {
+		names = append(names, o.Name())
+	}
+	sort.Strings(names)
+	t.notes = append(t.notes, fmt.Sprintf("in-place appends `P = append(P[:k], ys...)` are translated by value (P becomes P[:k] ++ ys): checked syntactically that every append has this form, that P is rooted at one of the locals {%s} (created by make / declared nil in this function, never copied into another name, elements never copied), and that ys is rooted at a different variable — so no two live slices share an array written in place", strings.Join(names, ", ")))
+}
+
+// assignElemField (integration of two wave-9 deliveries): an element struct that owns a backing array
+// (a slice-typed field) goes through the ownership discipline (assignElemFieldOwned); an element struct
+// of scalars only is read, updated and stored back (assignElemFieldPlain).
+func (t *fn) assignElemField(l *ast.SelectorExpr, ix *ast.IndexExpr, val string) []string {
+	et := t.tyOf(ix)
+	if et.k == kStruct && et.st != nil {
+		for _, ft := range et.st.ftypes {
+			if ft != nil && ft.k == kList {
+				return t.assignElemFieldOwned(l, ix, val)
+			}
+		}
+	}
+	return t.assignElemFieldPlain(l, ix, val)
 }
